@@ -104,4 +104,20 @@ def handleRrs (fs : List (String × String)) : String := Id.run do
     else none
   return verdict agree bad (body.length ≥ 40) s!"rrs-p{getD fs "proto" "2"}" (if agree then "" else s!"model={model}")
 
+/-- the port recorded for a member learned from an alive message on the packet path -/
+def handleAlivePort (fs : List (String × String)) : String := Id.run do
+  let some proto := getNat fs "proto" | return "PARSE proto"
+  let some bind := getNat fs "bind" | return "PARSE bind"
+  let some port := getNat fs "port" | return "PARSE port"
+  let some got := getInt fs "got" | return "PARSE got"
+  let want := alivePort bind proto port
+  let agree := got == (want : Int)
+  let bad : Option String :=
+    if getD fs "panic" "0" == "1" then some "alive-message-panicked"
+    else if got < 0 then some "alive-message-for-a-new-member-not-recorded"
+    else if proto ≥ 2 && port != 0 && got != (port : Int) then some s!"port-of-an-alive-message-not-recovered:sent={port}:recorded={got}:proto={proto}"
+    else if (proto < 2 || port == 0) && got != (bind : Int) then some s!"portless-alive-message-not-given-the-configured-port:recorded={got}"
+    else none
+  return s!"{if agree then "agree" else "DISAGREE"} {match bad with | none => "ok" | some b => "BAD:" ++ b} nt={if port != 0 && port != bind then 1 else 0} br=aliveport-{if proto < 2 then "old" else "new"} "
+
 end Swim.Drv.Msgpack
